@@ -322,7 +322,7 @@ func (e editor) list(from *Selection, to *Selection, m *meta.List, new bool, str
 			return fmt.Errorf("could not create destination list node %s", to.Path)
 		}
 		toChild.Path.Key = key
-		if err = e.enter(fromChild, toChild, newItem, editUpsert, false, false); err != nil {
+		if err = e.enter(fromChild, toChild, newItem, strategy, false, false); err != nil {
 			return err
 		}
 
